@@ -82,10 +82,12 @@ def sliceRange (len a b : Int) : Res (Int × Int) := if 0 ≤ a ∧ a ≤ b ∧ 
 def clamp (x lo hi : Int) : Res Int := if lo ≤ hi then .ok (max lo (min x hi)) else .panic
 
 /-- What the code reads off a `KNumber` (computed by the caller of the kernel; `number.rs`):
-`ltZeroF` = `n < 0.0` (comparison as `f64`), `geZeroI` = `n >= 0` (comparison as `i64`),
+`ltZeroF` = `n < 0.0`, `geZeroF` = `n >= 0.0` (comparisons as `f64`; both false for NaN),
+`geZeroI` = `n >= 0` (comparison as `i64`),
 `usize` = `usize::from(n)` and `i64` = `i64::from(n)` (saturating casts, NaN ↦ 0). -/
 structure NumView where
   ltZeroF : Bool
+  geZeroF : Bool
   geZeroI : Bool
   usize : Int
   i64 : Int
@@ -262,9 +264,9 @@ def runTempIndexRange (r : KRange) (index : Int) : Res (Option Int) :=
       (ckI64 (s + index)).bind fun v =>
         (rangeContains r v).bind fun c => .ok (if c then some v else none)
 
-/-- `run_index_assign`, list arm, number index: guard `index >= 0.0 && u_index < len` -/
+/-- `run_index_assign`, list arm, number index: guard `*index >= 0.0 && u_index < len` -/
 def indexAssignListNum (len : Int) (n : NumView) : Res Int :=
-  if !n.ltZeroF ∧ n.usize < len then sliceIndex len n.usize else .err
+  if n.geZeroF ∧ n.usize < len then sliceIndex len n.usize else .err
 
 /-- `run_index_assign`, list arm, range index: `for i in range.indices(len) { data[i] = … }` -/
 def indexAssignListRange (len : Int) (r : KRange) : Res (Int × Int) :=
@@ -290,11 +292,29 @@ def swapIndices (ks : List Nat) (i j : Nat) : Res (List Nat) :=
   | some a, some b => .ok ((ks.set i b).set j a)
   | _, _ => .panic
 
-/-- `run_index_assign`, map arm: guard `index >= 0.0 && u_index < map_len`, the value must be a
-2-tuple, then swap_remove_index / insert / swap_indices(u_index, map_len - 1) -/
-def indexAssignMap (ks : List Nat) (ltZeroF : Bool) (u : Nat) (isPair : Bool) (key : Nat) : Res (List Nat) :=
-  if !ltZeroF ∧ u < ks.length then
+/-- `run_index_assign`, map arm as it was before commit 6a9dccd (no key-collision guard): guard
+`index >= 0.0 && u_index < map_len`, the value must be a 2-tuple, then
+swap_remove_index / insert / swap_indices(u_index, map_len - 1). Kept to show what the guard is for. -/
+def indexAssignMapUnguarded (ks : List Nat) (geZeroF : Bool) (u : Nat) (isPair : Bool) (key : Nat) : Res (List Nat) :=
+  if geZeroF ∧ u < ks.length then
     if isPair then swapIndices (insertKey (swapRemoveIndex ks u) key) u (ks.length - 1)
+    else .err
+  else .err
+
+/-- position of a key (`IndexMap::get_index_of`) -/
+def indexOfKey (ks : List Nat) (k : Nat) : Option Nat :=
+  match ks with
+  | [] => none
+  | x :: xs => if x = k then some 0 else (indexOfKey xs k).map (· + 1)
+
+/-- `run_index_assign`, map arm (current code): additionally, a key that is already used by
+*another* entry is rejected with a runtime error before the swap dance -/
+def indexAssignMap (ks : List Nat) (geZeroF : Bool) (u : Nat) (isPair : Bool) (key : Nat) : Res (List Nat) :=
+  if geZeroF ∧ u < ks.length then
+    if isPair then
+      match indexOfKey ks key with
+      | some j => if j ≠ u then .err else swapIndices (insertKey (swapRemoveIndex ks u) key) u (ks.length - 1)
+      | none => swapIndices (insertKey (swapRemoveIndex ks u) key) u (ks.length - 1)
     else .err
   else .err
 
